@@ -291,6 +291,11 @@ func longHistory(r *rand.Rand, n int) sequence {
 			q = append(q, step{Op: 'P', Inst: int8(t.idx), Actor: int8(a.idx), Member: int8(m), Val: pickVal(p)})
 			continue
 		}
+		if ms := c.multis(); paramsEnforced && len(ms) > 0 && r.Intn(100) < 35 {
+			mi := r.Intn(len(ms))
+			q = append(q, step{Op: 'M', Inst: int8(t.idx), Member: int8(mi), Val: int8(r.Intn(len(ms[mi].patterns())))})
+			continue
+		}
 		tm := c.topMembers(true)
 		m := tm[r.Intn(len(tm))]
 		p, _ := c.member(m)
@@ -310,6 +315,9 @@ $m = new Mono();
 try { $m->ti("s"); echo "P1 accepted\n"; } catch (\Throwable $e) { echo "P1 rejected ", $e->getMessage(), "\n"; }
 try { $m->ta(7); echo "P2 accepted\n"; } catch (\Throwable $e) { echo "P2 rejected ", $e->getMessage(), "\n"; }
 try { $m->ti(5); echo "P3 accepted\n"; } catch (\Throwable $e) { echo "P3 rejected ", $e->getMessage(), "\n"; }
+class NBox<T> { public function nn(int $n, ?T $x) { return 1; } }
+$g = new NBox<int>();
+try { $g->nn(1, 5); echo "N1 accepted\n"; } catch (\Throwable $e) { echo "N1 rejected ", $e->getMessage(), "\n"; }
 `
 	r := d.e.RunScript(src, procTimeout)
 	var m1, m2 string
@@ -395,12 +403,12 @@ func main() {
 	d.calibrate()
 	d.regressionInputs()
 	core := alphabet{classes: []int{cBox, cPair}, nVals: nValsCore}
-	coreAll := alphabet{classes: []int{cBox, cPair}, nVals: nValsCore, withChecks: true, withPeers: true}
+	coreAll := alphabet{classes: []int{cBox, cPair}, nVals: nValsCore, withChecks: true, withPeers: true, withMulti: true}
 	boxOnly := alphabet{classes: []int{cBox}, nVals: nValsCore}
 	// shaped(s, bases...): the given base classes in shape s (modifier x heritage), with the
 	// parameter-only methods and the writes from inside another instance's method
 	shaped := func(shape int, bases ...int) alphabet {
-		a := alphabet{nVals: nValsCore, withChecks: true, withPeers: true}
+		a := alphabet{nVals: nValsCore, withChecks: true, withPeers: true, withMulti: true}
 		for _, b := range bases {
 			a.classes = append(a.classes, b+nBases*shape)
 		}
@@ -431,7 +439,11 @@ func main() {
 	// two-parameter class and the class with a storing constructor up to 2 steps (thorough:
 	// 3), plus seeded 3..4-step histories over all three
 	for shape := 0; shape < nShapes; shape++ {
-		enumerated += d.exhaustive("shapes<=3/Box", shaped(shape, cBox), 3, false)
+		noMulti := shaped(shape, cBox)
+		noMulti.withMulti = false
+		enumerated += d.exhaustive("shapes<=3/Box", noMulti, 3, false)
+		// with the multi-parameter methods (every argument pattern): up to 2 steps (thorough: 3)
+		enumerated += d.exhaustive(fmt.Sprintf("shapes<=%d/Box+multi", e.Pick(2, 3)), shaped(shape, cBox), e.Pick(2, 3), false)
 		enumerated += d.exhaustive(fmt.Sprintf("shapes<=%d/Pair", e.Pick(2, 3)), shaped(shape, cPair), e.Pick(2, 3), false)
 		enumerated += d.exhaustive(fmt.Sprintf("shapes<=%d/Cell", e.Pick(2, 3)), shaped(shape, cCell), e.Pick(2, 3), false)
 	}
@@ -509,6 +521,7 @@ func main() {
 	}
 
 	e.Extra("method_parameter_types_enforced", paramsEnforced)
+	e.Extra("nullable_type_parameter_positions_compared", nullableOK)
 	e.Extra("by_phase", d.byPhase)
 	e.Extra("member_writes_compared", d.writes)
 	e.Extra("enumerated_histories", enumerated)
